@@ -347,6 +347,11 @@ def standin_sum(tier, seed):
         nonlocal n
         lo, hi = real.common_range(lib, groups)
         Ts = [298.15] if lo is None else [lo, hi, 0.5 * (lo + hi), lo + 0.37 * (hi - lo)]
+        if lo is not None and hi > lo:
+            # the same estimate object asked again at temperatures that agree to six significant digits, and at the first one again
+            # (what a finite-difference derivative or a root finder on T does)
+            t0 = lo + 0.37 * (hi - lo)
+            Ts += [t0 * (1 + 2e-7), t0 * (1 - 3e-7), t0, 0.5 * (lo + hi) * (1 + 4e-7)]
         lib.name = 'C'
         kind, est = real.outcome(lib.Estimate, dict(groups), 'thermochem')
         if kind == 'exc':
